@@ -1,30 +1,31 @@
 #!/usr/bin/env bash
-# tools/verify_seed.sh <Cxx> <mK> [nosuite]: confirm a seeded mutation in a scratch worktree of /repo:
-# demo fails with the patch, passes without; existing suite green with the patch. Removes the worktree.
+# tools/verify_seed.sh <seed-dir> [suite]  — confirm one seeded change in a scratch worktree of /repo:
+# demo passes on HEAD, fails with the patch; with "suite" the full existing suite is run with the patch too.
+# Prints one RESULT line; removes the worktree. Logs under /tmp/seedverify/.
 set -u
-id="$1"; m="$2"; nosuite="${3:-}"
-src=/tmp/seed/$id/$m
-wt=/tmp/sv_${id}_${m}
-log=/tmp/seedverify/${id}_${m}.log
+src="$1"; suite="${2:-}"
+name=$(echo "$src" | sed 's#/$##; s#.*/\([^/]*\)/\([^/]*\)$#\1_\2#')
+wt=/tmp/sv_$name
+log=/tmp/seedverify/$name.log
 mkdir -p /tmp/seedverify
 export GOFLAGS=-mod=mod GOPROXY=off GOSUMDB=off GOTOOLCHAIN=local
 {
 git -C /repo worktree add -q --detach "$wt" HEAD || exit 2
 cd "$wt"
-demo=$(ls $src/*_test.go 2>/dev/null | head -1)
-place=$(grep -oE '(neat|experiment)[A-Za-z0-9_/]*/zz_[A-Za-z0-9_]*_test\.go' $src/notes.md | head -1)
-[ -z "$place" ] && place="neat/genetics/zz_demo_test.go"
-pkgdir=$(dirname "$place")
-echo "demo=$demo place=$place"
-cp "$demo" "$place"
-echo "== demo WITHOUT patch"; go test -vet=off -count=1 -run 'Demo|C0|ZZ' ./$pkgdir/ 2>&1 | tail -3; r0=${PIPESTATUS[0]}
-git apply $src/patch.diff || { echo "PATCH DOES NOT APPLY"; }
-echo "== demo WITH patch"; go test -vet=off -count=1 -run 'Demo|C0|ZZ' ./$pkgdir/ 2>&1 | tail -5; r1=${PIPESTATUS[0]}
-rm -f "$place"
-if [ -z "$nosuite" ]; then
-echo "== suite WITH patch"; go test -vet=off -count=1 -timeout 25m ./... 2>&1 | grep -v "no test files" | tail -12; r2=${PIPESTATUS[0]}
-else r2=skipped; fi
-echo "RESULT $id $m demo_clean=$r0 demo_patched=$r1 suite=$r2"
+pkgdir=$(python3 -c "import json;print(json.load(open('$src/meta.json'))['package_dir'])")
+demo=$(python3 -c "import json;print(json.load(open('$src/meta.json'))['demo_file'])")
+run=$(python3 -c "import json;print(json.load(open('$src/meta.json'))['run'])")
+cp "$src/$demo" "$pkgdir/$demo"
+echo "== demo WITHOUT patch: $run"; timeout 1200 bash -c "$run" 2>&1 | tail -4; r0=${PIPESTATUS[0]}
+git apply "$src/patch.diff" || echo "PATCH DOES NOT APPLY"
+go build ./... 2>&1 | tail -3
+echo "== demo WITH patch"; timeout 1200 bash -c "$run" 2>&1 | tail -12; r1=${PIPESTATUS[0]}
+rm -f "$pkgdir/$demo"
+r2=skipped
+if [ -n "$suite" ]; then
+echo "== suite WITH patch"; go test -vet=off -count=1 -timeout 60m ./... 2>&1 | grep -v "no test files" | tail -16; r2=${PIPESTATUS[0]}
+fi
+echo "RESULT $name demo_clean=$r0 demo_patched=$r1 suite=$r2"
 cd /; git -C /repo worktree remove --force "$wt"
 } > "$log" 2>&1
 tail -1 "$log"
